@@ -2,10 +2,12 @@ import SphericalVerif.Props.C18
 #print axioms C18.grid_copy_preserves
 #print axioms C18.grid_copy_independent
 #print axioms C18.grid_pickle_is_deep
+#print axioms C18.grid_deepcopy_is_deep
 #print axioms C18.grid_finalize_routes_shallow
 #print axioms C18.grid_route_hooks
 #print axioms C18.grid_finalize_edge_cases
 #print axioms C18.modes_copy_preserves
 #print axioms C18.modes_copy_independent
 #print axioms C18.modes_pickle_is_deep
+#print axioms C18.modes_deepcopy_is_deep
 #print axioms C18.modes_finalize_routes_shallow
